@@ -113,6 +113,29 @@ def run_case(case, workdir):
                     rec.fail("iter_count", sub, "yielded %d boxes, level has %d" % (len(val), nb))
                 elif not all(isinstance(v, np.ndarray) for v in val) or multiset(val) != exp_ms:
                     rec.fail("iter_values", sub, "yielded boxes are not the stored boxes (as a multiset)")
+            # history on ONE stream object: integer on-demand reads, then the level iteration, then an on-demand list
+            if fcls == "A":
+                with vpool.controlled():
+                    def hist():
+                        s_ = pck[S.decode(ftag)][lv]
+                        a = [s_.iter(b) for b in range(nb)]
+                        b_ = list(itertools.islice(iter(s_), nb + 3))
+                        c = list(itertools.islice(s_.iter(list(range(nb))[::-1]), nb + 3))
+                        d = list(itertools.islice(iter(s_), nb + 3))
+                        return a, b_, c, d
+                    st, val = call(hist)
+                rec.exe([dh, "stream_history", ftag, lv], nontrivial=True, trans=nb + 3)
+                sub = {"op": "history on one stream object", "field": ftag, "level": lv}
+                if st == "exc":
+                    rec.fail("history_raised", sub, exc_text(val))
+                else:
+                    a, b_, c, d = val
+                    if not (len(a) == nb and all(isinstance(x, np.ndarray) and bits_equal(x, e) for x, e in zip(a, exp_boxes))):
+                        rec.fail("history_dependent", dict(sub, step="iter(int)"), "integer on-demand reads are wrong")
+                    elif multiset(b_) != exp_ms or multiset(d) != exp_ms:
+                        rec.fail("history_dependent", dict(sub, step="iteration after on-demand reads"), "iteration after integer reads does not yield the stored boxes")
+                    elif not (len(c) == nb and all(bits_equal(x, e) for x, e in zip(c, exp_boxes[::-1]))):
+                        rec.fail("history_dependent", dict(sub, step="iter(list)"), "on-demand list after other reads is wrong")
             # on-demand iterator: requested order
             if fcls != "A" or ftag[0] not in ("name", "list", "slice") or (ftag[0] == "slice" and ftag[1] is None):
                 continue
